@@ -1074,6 +1074,14 @@ func (a *Association) Shutdown(ctx context.Context) error {
 		// sequence got as far as sending SHUTDOWN / SHUTDOWN ACK has everything
 		// written before been acknowledged by the peer.
 		if atomic.LoadUint32(&a.shutdownDataAcked) == 0 {
+			a.lock.RLock()
+			cause := a.readLoopErr
+			a.lock.RUnlock()
+			if cause != nil {
+				// the cause of a peer's ABORT, a transport error
+				return fmt.Errorf("%w: before the shutdown of %s completed: %w", ErrAssociationClosed, a.name, cause)
+			}
+
 			return fmt.Errorf("%w: before the shutdown of %s completed", ErrAssociationClosed, a.name)
 		}
 
@@ -1196,6 +1204,11 @@ func (a *Association) closeAllTimers() {
 func (a *Association) readLoop() {
 	var closeErr error
 	defer func() {
+		// what ended the loop is on record before anybody is woken
+		a.lock.Lock()
+		a.readLoopErr = closeErr
+		a.lock.Unlock()
+
 		// also stop writeLoop, otherwise writeLoop can be leaked
 		// if connection is lost when there is no writing packet.
 		a.closeWriteLoopOnce.Do(func() { close(a.closeWriteLoopCh) })
